@@ -18,7 +18,7 @@ import numpy as np
 
 from ..gen import corpus
 from ..gen.basis import rng_for
-from ..mon import audit, lineiter
+from ..mon import audit, lineiter, tables
 
 PROPERTY = "C07"
 LEVEL = "fault_enumeration"
@@ -124,6 +124,7 @@ class Runner:
         self.counters = {"loads": 0, "load_errors": 0, "objects_returned": 0, "next_calls": 0, "lineno_checked": 0, "fd_checks": 0,
                          "load_many_runs": 0, "frames": 0, "fileformaterrors": 0}
         self.cls = lineiter.install()
+        self.settings0 = tables.global_settings()
         self.name = "case" + EXT_FOR.get(case["fmt"], "")
         src = os.path.join(corpus.bootstrap.DATA_DIR, case["file"])
         base = os.path.basename(src)
@@ -171,6 +172,26 @@ class Runner:
         if fds:
             self.add("file-left-open", f"{tag}: descriptors {fds} still open on the file")
 
+    def check_settings(self, tag):
+        """A (failed) load must not leave process-global switches changed: every later load would run under them.  For the
+        attrs validator switch the consequence is demonstrated with a canary (an inconsistent object must be refused)."""
+        self.counters["settings_checks"] = self.counters.get("settings_checks", 0) + 1
+        now = tables.global_settings()
+        for name, old, new in tables.settings_diff(self.settings0, now):
+            extra = ""
+            if name == "attrs.validators.disabled":
+                import attrs
+                from iodata import IOData
+
+                try:
+                    IOData(atnums=[1, 1], atcoords=np.zeros((3, 3)))
+                    extra = "; canary: IOData with 2 atomic numbers and 3 coordinate rows is now ACCEPTED, i.e. later loads return inconsistent shapes"
+                except TypeError:
+                    extra = "; canary still refused"
+                attrs.validators.set_disabled(False)
+            self.add(f"global-state-left-changed:{name}", f"{tag}: after the call {name} is {new!r} (was {old!r}){extra}")
+        self.settings0 = tables.global_settings()
+
     def load_one(self, tag, fmt):
         import iodata
 
@@ -197,6 +218,7 @@ class Runner:
             for p in shape_problems(d):
                 self.add("inconsistent-shapes", f"{tag}: returned object: {p}")
         self.check_closed(tag)
+        self.check_settings(tag)
         for w in wl:
             if issubclass(w.category, ResourceWarning):
                 self.add("file-left-open", f"{tag}: ResourceWarning {w.message}")
@@ -237,6 +259,7 @@ class Runner:
             if exc is not None:
                 self.check_exception(exc, tag, lit)
             self.check_closed(tag)
+            self.check_settings(tag)
             for w in wl:
                 if issubclass(w.category, ResourceWarning):
                     self.add("file-left-open", f"{tag}: ResourceWarning {w.message}")
